@@ -364,6 +364,29 @@ def _edge_fill(name, opts, out, seen, lengths):
                     seen.add(o[1])
                     out.append(o[1])
                     lengths.setdefault((len(o[1]), ''.join('d' if c.isdigit() else 'u' if c.isupper() else 'l' if c.islower() else 'o' for c in o[1])), o[1])
+    # every accepted length near the lengths the examples show (up to three characters dropped or repeated at the front,
+    # in the middle or before the last character), repaired: each new length is a shape of its own
+    for v in list(lengths.values())[:3]:
+        if len(v) > 30:
+            continue
+        for delta in (-3, -2, -1, 1, 2, 3):
+            for pos in sorted(set([1, len(v) // 2, len(v) - 2])):
+                if not 0 <= pos < len(v) or not cls(v[pos]):
+                    continue
+                if delta < 0:
+                    if pos - delta > len(v) - 1 or len(v) + delta < 2:
+                        continue
+                    w0 = v[:pos] + v[pos - delta:]
+                else:
+                    w0 = v[:pos] + v[pos] * delta + v[pos:]
+                w = synth(name, w0, [], opts)
+                if w:
+                    o = core.out(m.validate, w, **opts)
+                    if o[0] == 'ok' and isinstance(o[1], str) and o[1] not in seen:
+                        seen.add(o[1])
+                        out.append(o[1])
+                        stats['edge_length_variant'] += 1
+                        lengths.setdefault((len(o[1]), ''.join('d' if c.isdigit() else 'u' if c.isupper() else 'l' if c.islower() else 'o' for c in o[1])), o[1])
     for v in list(lengths.values())[:6]:
         if len(v) > 40:
             continue
